@@ -27,7 +27,8 @@ CONSTANTS Cons,       \* consumers with the small queue (capacity N) that may st
           N, HCap,
           Parts,      \* model checking only: elements per unit (1 = intended; 2 = header and payload apart)
           WsMode,     \* model checking only: the units are WebSocket frames
-          MaxPub, MaxRead, MaxStall, MaxSweep   \* bounds (MaxSweep = 0: unbounded, not counted)
+          MaxPub, MaxRead, MaxStall, MaxSweep,  \* bounds (MaxSweep = 0: unbounded, not counted)
+          MaxLeave    \* how often the publisher may leave (and come back)
 
 All == Cons \cup Healthy
 
@@ -36,12 +37,13 @@ VARIABLES con,     \* per consumer [open, closed, q, fl, wire, base, wr]
           ws,      \* the stream is WebSocket framed
           npub,    \* publishes so far
           pend,    \* fine model: enqueues the running fan-out still has to do, << <<c, part>>, ... >>
-          cnt,     \* [read, stall, sweep] bounds bookkeeping
+          cnt,     \* [read, stall, sweep, leave] bounds bookkeeping, live = a publisher is attached
           act      \* last action (emission only)
 
 vars == <<con, cap, ws, npub, pend, cnt, act>>
 
 Min(a, b) == IF a < b THEN a ELSE b
+CntInit == [read |-> 0, stall |-> 0, sweep |-> 0, leave |-> 0, live |-> TRUE]
 ConsInit == [open |-> TRUE, closed |-> FALSE, q |-> <<>>, fl |-> <<>>, wire |-> <<>>, base |-> FALSE, wr |-> FALSE]
 
 ---------------------------------------------------------------------------
@@ -107,7 +109,7 @@ Burst(n) == IF Parts = 1 THEN <<[k |-> IF WsMode THEN "wsf" ELSE "msg", id |-> n
 Init == /\ con = [c \in All |-> ConsInit]
         /\ cap = [c \in All |-> IF c \in Healthy THEN HCap ELSE N]
         /\ ws = WsMode /\ npub = 0 /\ pend = <<>>
-        /\ cnt = [read |-> 0, stall |-> 0, sweep |-> 0]
+        /\ cnt = CntInit
         /\ act = [name |-> "init"]
 
 SweepOk == MaxSweep = 0 \/ cnt.sweep < MaxSweep
@@ -119,7 +121,7 @@ SetToSeq(S) == IF S = {} THEN <<>> ELSE LET x == CHOOSE y \in S : TRUE IN <<x>> 
 RECURSIVE Pairs(_, _)
 Pairs(cs, P) == IF cs = <<>> THEN <<>> ELSE [i \in 1..Len(P) |-> <<cs[1], P[i]>>] \o Pairs(Tail(cs), P)
 
-FinePublish == /\ pend = <<>> /\ npub < MaxPub
+FinePublish == /\ pend = <<>> /\ npub < MaxPub /\ cnt.live
                /\ pend' = Pairs(SetToSeq(All), Burst(npub + 1)) /\ npub' = npub + 1
                /\ act' = [name |-> "Publish"] /\ UNCHANGED <<con, cap, ws, cnt>>
 \* one enqueue: never waits for anybody
@@ -152,7 +154,16 @@ Sweep == /\ SweepOk /\ pend = <<>>      \* Group.Tick takes Group.mutex
          /\ con' = [c \in All |-> SweepC(con[c])] /\ cnt' = SweepCnt
          /\ act' = [name |-> "Sweep"] /\ UNCHANGED <<cap, ws, npub, pend>>
 
-FineNext == \/ FinePublish \/ FanoutWrite \/ Sweep
+\* DelRtmpPubSession / AddRtmpPubSession: critical sections under Group.mutex that, like the fan-out, never
+\* wait for a consumer (what they hand to the consumers, if anything, is observed in the trace)
+PubLeave == /\ cnt.live /\ cnt.leave < MaxLeave /\ pend = <<>>
+            /\ cnt' = [cnt EXCEPT !.live = FALSE, !.leave = @ + 1]
+            /\ act' = [name |-> "PubLeave"] /\ UNCHANGED <<con, cap, ws, npub, pend>>
+PubArrive == /\ ~cnt.live /\ pend = <<>>
+             /\ cnt' = [cnt EXCEPT !.live = TRUE]
+             /\ act' = [name |-> "PubArrive"] /\ UNCHANGED <<con, cap, ws, npub, pend>>
+
+FineNext == \/ FinePublish \/ FanoutWrite \/ Sweep \/ PubLeave \/ PubArrive
             \/ \E c \in All : WriterTake(c) \/ SocketWrite(c)
             \/ \E c \in Cons : FineRead(c) \/ Stall(c) \/ FineResume(c) \/ DeadlineFire(c)
 FineSpec == Init /\ [][FineNext]_vars
@@ -169,7 +180,7 @@ QueueBound == \A c \in All : Len(con[c].q) <= cap[c] /\ Len(con[c].fl) <= 1
 EventuallyClosed == \A c \in Cons : <>[](con[c].closed \/ con[c].open)
 
 (* ---- call-level model: one action per call into lal, writers run to quiescence ---- *)
-GPublish == /\ npub < MaxPub /\ \A h \in Healthy : ~con[h].closed   \* the healthy consumer shows the units
+GPublish == /\ npub < MaxPub /\ cnt.live /\ \A h \in Healthy : ~con[h].closed   \* the healthy consumer shows the units
             /\ LET P == Burst(npub + 1) IN
                /\ \A c \in All : ~EnqRacy(con[c], cap[c], P)
                /\ con' = [c \in All |-> Enq(con[c], cap[c], P, P)]
@@ -180,7 +191,7 @@ GRead(c) == /\ ~con[c].closed /\ ~con[c].open /\ con[c].fl # <<>> /\ cnt.read < 
 GResume(c) == /\ ~con[c].closed /\ ~con[c].open
               /\ con' = [con EXCEPT ![c] = ResumeC(@)]
               /\ act' = [name |-> "Resume", c |-> c] /\ UNCHANGED <<cap, ws, npub, pend, cnt>>
-GNext == \/ GPublish \/ Sweep
+GNext == \/ GPublish \/ Sweep \/ PubLeave \/ PubArrive
          \/ \E c \in Cons : GRead(c) \/ Stall(c) \/ GResume(c) \/ DeadlineFire(c)
 GSpec == Init /\ [][GNext]_vars
 \* in the call-level model every state is quiescent
